@@ -60,6 +60,26 @@ def run_threaded(mod, shard, out_path, n):
     return res
 
 
+def variant_import_failure(pid, shard, out_path):
+    """A copy of an ordinary shard under another interpreter configuration: the package must import there as
+    it does in the ordinary shards (the orchestrator keeps this verdict only when those did import it)."""
+    from vf import judge  # noqa: PLC0415
+    from vf.lib import Mon  # noqa: PLC0415
+
+    try:
+        judge.lib()
+    except Exception as ie:  # noqa: BLE001
+        mon = Mon(pid)
+        mon.ev()
+        tb = "".join(traceback.format_exception(type(ie), ie, ie.__traceback__))
+        mon.viol(f"library_cannot_be_imported:{shard['_variant']}", {"interpreter_flags": shard.get("_pyflags"), "environment": shard.get("_env")},
+                 "the package imports as under the default configuration", tb[-600:])
+        res = mon.result(out_path)
+        res["variant_import_failed"] = True
+        return res
+    return None
+
+
 def main():
     pid, shard_path, out_path = sys.argv[1:4]
     with open(shard_path, encoding="utf-8") as fp:
@@ -81,14 +101,16 @@ def main():
             reach = reach_mod.Reach(env.PKG)
             reach.start()
         try:
-            if shard.get("_prelude"):
-                from vf import judge  # noqa: PLC0415
+            res = variant_import_failure(pid, shard, out_path) if shard.get("_variant") else None
+            if res is None:
+                if shard.get("_prelude"):
+                    from vf import judge  # noqa: PLC0415
 
-                judge.prelude()
-            if shard.get("_threads"):
-                res = run_threaded(mod, shard, out_path, int(shard["_threads"]))
-            else:
-                res = mod.run_shard(shard, out_path)
+                    judge.prelude()
+                if shard.get("_threads"):
+                    res = run_threaded(mod, shard, out_path, int(shard["_threads"]))
+                else:
+                    res = mod.run_shard(shard, out_path)
         finally:
             if reach is not None:
                 reach.stop()
